@@ -74,6 +74,7 @@ type childOutcome struct {
 	timedOut bool
 	stderr   string
 	journal  string
+	lastIn   string
 }
 
 func runChild(p *Prop, tier string, seed int64, dir string, sp childSpec, timeout time.Duration) childOutcome {
@@ -124,6 +125,9 @@ func runChild(p *Prop, tier string, seed int64, dir string, sp childSpec, timeou
 	if b, err := os.ReadFile(fmt.Sprintf("%s/journal.%s.%d", dir, sp.mode.Name, sp.shard)); err == nil {
 		lines := strings.Split(strings.TrimSpace(string(b)), "\n")
 		oc.journal = lines[len(lines)-1]
+	}
+	if b, err := os.ReadFile(fmt.Sprintf("%s/lastinput.%s.%d", dir, sp.mode.Name, sp.shard)); err == nil {
+		oc.lastIn = string(b)
 	}
 	return oc
 }
@@ -311,7 +315,8 @@ func Orchestrate(propID, tier string, seed int64, replay string) int {
 				continue
 			}
 			agg.Violations = append(agg.Violations, Violation{Prop: p.ID, Clause: "process-died", Case: firstField(oc.journal), Mode: oc.spec.mode.Name,
-				Seed: seed, Tier: tier, Detail: fmt.Sprintf("worker exit=%d at journal %q\n%s", oc.exitCode, oc.journal, oc.stderr)})
+				Seed: seed, Tier: tier, Detail: fmt.Sprintf("worker exit=%d at journal %q\n%s", oc.exitCode, oc.journal, oc.stderr),
+				Replay: map[string]any{"last_input": oc.lastIn}})
 			agg.Counters["violations.process-died"]++
 		}
 	}
